@@ -325,6 +325,17 @@ def run(ctx):
         n = len(m["structure"]["numbers"])
         members.append({"id": len(members), "key": m["key"], "structure": m["structure"], "seed": m["sbc_seed"],
                         "classes": [list(range(n))], "dim": m["dim"], "meta": m["meta"]})
+        # slabs with a non-periodic direction once more, translated rigidly by a multiple of the non-periodic cell vector
+        # (the whole slab stored outside its cell: +1, -1 or +2.5 cell lengths); every third such member in the quick tier
+        pbc = m["structure"]["pbc"]
+        if not all(pbc) and (not quick or len(members) % 3 == 0):
+            import numpy as _np
+            ax = [i for i in range(3) if not pbc[i]][0]
+            kfar = (1.0, -1.0, 2.5)[len(members) % 3]
+            st = dict(m["structure"])
+            st["positions"] = (_np.array(st["positions"]) + kfar * _np.array(st["cell"])[ax]).tolist()
+            members.append({"id": len(members), "key": m["key"] + ":far%+g" % kfar, "structure": st, "seed": m["sbc_seed"],
+                            "classes": [list(range(n))], "dim": m["dim"], "meta": dict(m["meta"], far=kfar)})
     fam = ("C02 family: elemental fcc/bcc/hcp/diamond/sc (ase.data.reference_states) and rocksalt/zincblende/CsCl/(anti)fluorite/"
            "wurtzite/perovskite/rutile prototypes passing the independent precondition (<= 6 atoms and vectors < 6 A in the reduced "
            "primitive cell; bonded network connected with periodic rank 3 (bulk) / 2 (slab) and no overlap, margin 0.15 A; periodic "
